@@ -112,6 +112,21 @@ func (r *verifSysRun) takeOrder() []string {
 	return o
 }
 
+// resolvable: 1 if ActorOf(name) returns a PID, 0 if not, 2 if ActorOf PANICS: it reads node.value() after
+// releasing the tree lock and calls pid.IsStopping() on it; when death watch clears the node in between,
+// the PID is nil (finding C09-F2; the deterministic witness is the `resolve` case).
+func (r *verifSysRun) resolvable(ctx context.Context, x string) (res int) {
+	defer func() {
+		if recover() != nil {
+			res = 2
+		}
+	}()
+	if got, err := r.sys.ActorOf(ctx, x); err == nil && got != nil {
+		return 1
+	}
+	return 0
+}
+
 // observe is called right after a stop-like call on x returned.
 func (r *verifSysRun) observe(op, x string, waitOffline bool) string {
 	ctx := context.Background()
@@ -129,10 +144,7 @@ func (r *verifSysRun) observe(op, x string, waitOffline bool) string {
 			run = append(run, n)
 		}
 	}
-	res, reg := 0, 0
-	if got, err := r.sys.ActorOf(ctx, x); err == nil && got != nil {
-		res = 1
-	}
+	res, reg := r.resolvable(ctx, x), 0
 	if _, ok := r.sys.actors.node(pid.ID()); ok {
 		reg = 1
 	}
@@ -148,10 +160,7 @@ func (r *verifSysRun) observe(op, x string, waitOffline bool) string {
 			left = append(left, n)
 		}
 	}
-	late := 0
-	if got, err := r.sys.ActorOf(ctx, x); err == nil && got != nil {
-		late = 1
-	}
+	late := r.resolvable(ctx, x)
 	order := r.takeOrder()
 	sort.Strings(run)
 	sort.Strings(left)
@@ -404,4 +413,70 @@ func VerifC09GuardCase(fields []string) string {
 		a.Receive(rc)
 	}()
 	return fmt.Sprintf("overtakes=%v;%s", overtakes, res)
+}
+
+// ---------------------------------------------------------------------------------------------------------
+// `resolve | A ; D | schedule` — name resolution racing death watch, under controlled scheduling (engine E3:
+// pid_tree.go's node/nodeByName/deleteNode/value are instrumented with vsched points).
+// Thread ops: A = ActorOf("r1"), E = ActorExists("r1"), K = Kill("r1"), D = tree.deleteNode(r1) (what death
+// watch does when it handles Terminated(r1)).
+// ---------------------------------------------------------------------------------------------------------
+
+type VerifC09Resolve struct {
+	sys *actorSystem
+	pid *PID
+}
+
+func NewVerifC09Resolve() *VerifC09Resolve {
+	ctx := context.Background()
+	sysI, err := NewActorSystem(fmt.Sprintf("vr%d", verifSysSeq.Add(1)), WithLoggingDisabled())
+	if err != nil {
+		return nil
+	}
+	if err := sysI.Start(ctx); err != nil {
+		return nil
+	}
+	sys := sysI.(*actorSystem)
+	for _, g := range []*PID{sys.rootGuardian, sys.systemGuardian, sys.userGuardian, sys.deathWatch, sys.deadletter, sys.noSender} {
+		if g != nil {
+			verifQuiesce(g)
+		}
+	}
+	pid, err := sys.Spawn(ctx, "r1", &verifSysActor{sc: &verifScenario{term: map[string]int{}}, name: "r1"}, WithLongLived())
+	if err != nil {
+		_ = sys.Stop(ctx)
+		return nil
+	}
+	verifQuiesce(pid)
+	return &VerifC09Resolve{sys: sys, pid: pid}
+}
+
+func (v *VerifC09Resolve) Do(tid int, op string) string {
+	ctx := context.Background()
+	switch op {
+	case "A":
+		got, err := v.sys.ActorOf(ctx, "r1")
+		if err != nil {
+			return "notfound"
+		}
+		if got == nil {
+			return "nil"
+		}
+		return "found"
+	case "E":
+		ok, err := v.sys.ActorExists(ctx, "r1")
+		if err != nil {
+			return "err"
+		}
+		return fmt.Sprint(ok)
+	case "D":
+		v.sys.actors.deleteNode(v.pid)
+		return "ok"
+	}
+	return "bad-op"
+}
+
+func (v *VerifC09Resolve) Final() string {
+	_ = v.sys.Stop(context.Background())
+	return "-"
 }
